@@ -88,7 +88,8 @@ func readFaultEnum(e *env) error {
 			}
 			// the same file as log of `csv log` / `report quantity`, and as book of `csv database-resolved`
 			if k%2 == 0 {
-				for ci, args := range [][]string{{"csv", "log"}, {"report", "quantity"}, {"csv", "database-resolved"}, {"--no-color", "reg"}, {"lint", "log.yaml"}, {"lint", "-s", "log.yaml"}} {
+				for ci, args := range [][]string{{"csv", "log"}, {"report", "quantity"}, {"csv", "database-resolved"}, {"--no-color", "reg"}, {"lint", "log.yaml"}, {"lint", "-s", "log.yaml"},
+					{"csv", "log", "-e", "2021/01/01"}, {"-e", "2021/01/01", "report", "quantity"}, {"--no-color", "summary", "2021/01/01"}} {
 					in := data
 					if args[0] == "lint" {
 						in = lintData
